@@ -16,8 +16,17 @@ save decisions (layer `SchemaIO`, property C05).
 Strings are `List Char`.  A Python attribute dictionary `{name: True | "v1,v2"}` is an association list
 `name ↦ list of values` in insertion order: `[]` is the flag `True`, a string value is its split at `,`.
 A description is `Option Str` (`none` = Python `None`).
-Not modelled: XML text (ElementTree), pandas cell handling, rooted-tag resolution against the partner schema
-while *reading* (needs the partner vocabulary), duplicate-name bookkeeping, header line.
+Abstract documents: MediaWiki = list of lines; TSV tag sheet = list of rows (`TsvRow`, one field per cell);
+XML tag section = forest of `XNode` elements.  Text <-> element tree (ElementTree, escaping) and cell quoting
+(pandas/csv) stay outside: the harness reads the saved files with ElementTree / csv and compares at this level.
+  TSV           `Schema2DF._write_tag_entry/_attribute_disallowed/_get_subclass_of`,
+                `SchemaLoaderDF._read_schema/_create_tag_entry/_create_entry/_get_tag_name`
+  XML           `Schema2XML._write_tag_entry/_add_tag_node_attributes`,
+                `SchemaLoaderXML._add_tags_recursive/_parse_node` (description stripped since fix a64eb53)
+  other wiki    `Schema2Wiki._write_entry`, `SchemaLoaderWiki._read_section/_read_unit_classes`
+Not modelled: rooted-tag resolution against the partner schema while *reading* (needs the partner vocabulary),
+the TSV reader's retry rounds for rows whose parent comes later, the TSV sheets and XML sections other than
+tags, duplicate-name bookkeeping, header line, the derived omn:EquivalentTo column.
 No Mathlib imports here: this file is linked into the native driver.
 -/
 import HedVerif.Model.Tok
@@ -603,7 +612,8 @@ def tsvLong (parents : Option (List Str)) (tagName : Str) : Str :=
   | _ => tagName
 
 /-- `SchemaLoaderDF._read_schema` (first round) with `_create_tag_entry/_create_entry`;
-`known` = `known_parent_tags` (short name ↦ path) -/
+`known` = `known_parent_tags` (short name ↦ path).  The first problem is returned; the loader itself records an
+empty name and goes on, so a later row may still raise: both outcomes are failed loads. -/
 def ofTsvFrom : List TsvRow → List (Str × List Str) → Except TErr (List Entry)
   | [], _ => .ok []
   | r :: rest, known =>
